@@ -51,6 +51,7 @@ import (
 	"time"
 
 	"github.com/cnotch/ipchub/media"
+	"github.com/cnotch/ipchub/service/wsp"
 	"github.com/cnotch/ipchub/utils"
 	"github.com/gorilla/websocket"
 	"pgregory.net/rapid"
@@ -1610,4 +1611,83 @@ func TestWirePlayAnswerThenPublish(t *testing.T) {
 				"%s: in %d of %d rounds the packet published right after the client had read the 200 to PLAY never arrived, while later packets did", kind, missed, rounds)
 		}
 	}
+}
+
+// TestWireWspJoinAnswerThenPlay is the deterministic witness for the attach of a
+// WSP player: the server's data-channel goroutine is held (schedule point
+// "join.answered" of service/wsp) right after the answer to JOIN has been
+// written. The client, which has read that answer, completes DESCRIBE / SETUP /
+// PLAY on the control channel, and a packet is published. That packet was
+// published after the player attached: it must arrive once the goroutine goes on.
+func TestWireWspJoinAnswerThenPlay(t *testing.T) {
+	s := wireStart()
+	s.SetCacheGop(false)
+	for r := 0; r < 5; r++ {
+		l := &wlog{cdc: esgen.H264, vseq: 10, vts: 1000, vssrc: 78}
+		first := l.extraPacket()
+		path := fmt.Sprintf("/c01w/j%d", atomic.AddUint64(&wireCases, 1))
+		st := srv.PublishStream(path, mediah.SDP(esgen.H264, false))
+		release := make(chan struct{})
+		var held int32
+		wsp.VerifSetSched(func(point string, obj interface{}) {
+			if c, ok := obj.(interface{ Path() string }); ok && point == "join.answered" && c.Path() == path {
+				atomic.StoreInt32(&held, 1)
+				<-release
+			}
+		})
+		finish := func() {
+			select {
+			case <-release:
+			default:
+				close(release)
+			}
+			wsp.VerifSetSched(nil)
+		}
+		c := &wclient{pl: wclientPlan{Kind: "wsp", DetachAt: -1, Chans: [4]int{0, 1, 2, 3}}}
+		if err := c.attach(s, path); err != nil {
+			finish()
+			srv.Unpublish(st)
+			t.Fatalf("machinery: wsp attach: %v", err)
+		}
+		if atomic.LoadInt32(&held) == 0 {
+			finish()
+			srv.Unpublish(st)
+			t.Fatalf("machinery: the data-channel goroutine was not held at join.answered")
+		}
+		pub := &wpublisher{direct: st}
+		pub.publish(first)
+		// the delivery goroutine has taken the packet off the queue (and, on the code
+		// before the fix, dropped it for want of a data channel) before the hold ends
+		var cid media.CID
+		for _, ci := range st.Info(true).Consumptions {
+			cid = media.CID(ci.ID)
+		}
+		srv.WaitFor(wireBound, func() bool { return media.VerifQueueLen(st, cid) == 0 })
+		time.Sleep(2 * time.Millisecond)
+		finish()
+		ok, later := false, false
+		deadline := time.Now().Add(wireBound)
+		for !ok && !later && time.Now().Before(deadline) {
+			c.poll()
+			for _, it := range c.items {
+				if bytes.Equal(it.Data, first.Data) {
+					ok = true
+				} else {
+					later = true
+				}
+			}
+			if !ok && !later {
+				pub.publish(l.extraPacket())
+				time.Sleep(time.Millisecond)
+			}
+		}
+		c.leave(s, path, false)
+		srv.Unpublish(st)
+		evid.Eval(1)
+		if !ok {
+			evid.Violation(t, "wire-wsp-join-answer-then-play", map[string]any{"round": r, "later_packets_arrived": later},
+				"a WSP player read the answer to JOIN, completed PLAY, and the packet published next never reached its data channel (later packets arrived: %v): the data channel was attached to the session only after the answer", later)
+		}
+	}
+	evid.Class("wire witness: WSP data channel held between the JOIN answer and its attachment")
 }
